@@ -328,7 +328,7 @@ theorem subtype_refl_general (cls : ClassTable) (c : String) (h : registered cls
       simp only
       split <;> simp
 
-example : (hierOf SlipVerif.Gen.Hierarchies.hierarchies "bignum").isSome = true ∧
-    registered SlipVerif.Gen.Hierarchies.classes "bignum" = true := by decide
+example : (hierOf [("Ratio", ["ratio", "rational", "t"])] "ratio").isSome = true ∧
+    registered [("rational", ""), ("ratio", "rational")] "ratio" = true := by decide
 
 end SlipVerif.Types
